@@ -86,3 +86,56 @@ def effect_guarded(fn, ctx, atom, effect_blocks):
                 continue
             work.append(s)
     return not (set(effect_blocks) & seen)
+
+
+PREFIXES = ("next_", "new_", "curr_", "default_", "pre_", "post_", "token_")
+SUFFIXES = ("_info", "_account", "_key")
+
+
+def _norm_name(n):
+    for p in ("next_", "new_", "curr_", "default_"):
+        if n.startswith(p):
+            n = n[len(p):]
+    for s in ("_info",):
+        if n.endswith(s):
+            n = n[: -len(s)]
+    return n
+
+
+def arg_name(term):
+    """Name carried by an argument term: last field of a chain, or the parameter / variable name."""
+    t = strip(term)
+    if t[0] == "field":
+        return t[2]
+    if t[0] == "param":
+        return t[1]
+    if t[0] == "var":
+        return t[1]
+    if t[0] == "call" and t[1] == "key" and len(t[2]) == 1:
+        return arg_name(t[2][0])
+    if t[0] == "call" and len(t[2]) == 1 and "::MemoryMapped" in t[1]:
+        return t[1].rsplit("::", 1)[-1]
+    return None
+
+
+def argname_mismatches(facts, caller, bi, t, args):
+    """E10: an argument whose name equals (modulo prefixes) the name of one of the callee's
+    parameters must be passed in that parameter's position."""
+    callee = facts.fn(callee_path(t) or "")
+    if callee is None:
+        return []
+    pnames = [_norm_name(n or "") for n in callee.param_names()]
+    out = []
+    for i, a in enumerate(args):
+        if i >= len(pnames):
+            break
+        n = arg_name(a)
+        if n is None:
+            continue
+        n = _norm_name(n)
+        if n in pnames and pnames[i] != n and pnames.count(n) == 1:
+            # only a violation if the types are interchangeable (same type at both positions)
+            j = pnames.index(n)
+            if callee.locals[i + 1]["t"] == callee.locals[j + 1]["t"]:
+                out.append("argument #%d `%s` is passed where `%s` is expected (callee has `%s` at #%d)" % (i, n, pnames[i], n, j))
+    return out
